@@ -77,9 +77,13 @@ def fam_a(case, fl):
     return False
 
 
-def fam_b(case, fl):
-    """the name of an `except … as n` clause"""
+def _except_name(case, fl):
     return _unsound(fl) and any(s[0] == "try" and any(h[1] == fl["name"] for h in s[2]) for s in _stmts(case))
+
+
+def fam_b(case, fl):
+    """the name of an `except … as n` clause (n not bound in a caller namespace: that is family exceptNameInCallerNs)"""
+    return _except_name(case, fl) and not any(fl["name"] in d for d in fl.get("ns", []))
 
 
 def fam_c(case, fl):
@@ -104,7 +108,7 @@ def fam_d(case, fl):
 def fam_b2(case, fl):
     """the name of an `except … as n` clause that is also bound in a caller namespace: the handler's implicit `del n`
     unbinds the caller's name, which an analysis that never writes to the caller's namespaces cannot record"""
-    return fam_b(case, fl) and any(fl["name"] in d for d in fl.get("ns", []))
+    return _except_name(case, fl) and any(fl["name"] in d for d in fl.get("ns", []))
 
 
 def fam_l(case, fl):
@@ -262,7 +266,7 @@ class C05(Prop):
         "Pfb.C05.agree_mk",
         "Pfb.C05.witness_a", "Pfb.C05.witness_b", "Pfb.C05.witness_c", "Pfb.C05.witness_d", "Pfb.C05.witness_d2",
         "Pfb.C05.witness_e", "Pfb.C05.witness_f", "Pfb.C05.witness_g", "Pfb.C05.witness_g2", "Pfb.C05.witness_h",
-        "Pfb.C05.witness_i", "Pfb.C05.witness_j",
+        "Pfb.C05.witness_i", "Pfb.C05.witness_j", "Pfb.C05.witness_l",
     ]
     anchors = [
         ("lib/python/pyflyby/_autoimp.py", "ScopeStack"),
@@ -275,7 +279,7 @@ class C05(Prop):
         ("lib/python/pyflyby/_idents.py", "DottedIdentifier"),
     ]
     quick_cases = 2000
-    thorough_cases = 60000
+    thorough_cases = 20000
     quick_deadline_s = 55
     thorough_deadline_s = 600
     rule = ("mini-Python programs from harness/gen_c05.py (assign/augassign/annassign/import/def with defaults, annotations, "
@@ -363,7 +367,7 @@ class C05(Prop):
         g = G.Gen(rng)
         combos = [(i,) for i in range(len(F))] + list(itertools.product(range(len(F)), repeat=2))
         if tier == "thorough":
-            combos += [tuple(rng.randrange(len(F)) for _ in range(3)) for _ in range(12000)]
+            combos += [tuple(rng.randrange(len(F)) for _ in range(3)) for _ in range(6000)]
         else:
             combos = [(i,) for i in range(len(F))] + rng.sample(combos[len(F):], 260) + \
                      [tuple(rng.randrange(len(F)) for _ in range(3)) for _ in range(120)]
